@@ -75,6 +75,7 @@ fn len_choice(rng: &mut Rng) -> usize {
         0 | 1 => *rng.pick(&[0usize, 1, 31, 32, 33, 63, 64, 65, 95, 96, 97, 128, 130]),
         // long texts: renderings and block loops have their own internal batch sizes
         2 if rng.chance(1, 4) => *rng.pick(&[255usize, 256, 257, 512, 768, 1023, 1024, 1025, 1100, 2048, 2049]),
+        3 if rng.chance(1, 12) => *rng.pick(&[4095usize, 4096, 4097, 4100, 4127, 4128, 8191, 8192, 8193, 8200, 16383, 16385, 16400, 32769, 32790]),
         _ => rng.below(131),
     }
 }
